@@ -2,15 +2,26 @@
 import struct, itertools
 import vlib
 from vlib import hexs, unhex
+# >>> a_c03
+import sys as _sys
+from props import C03_mirror
+# <<< a_c03
 
 RULE = ("exhaustive sequences over the 14 token kinds (position-dependent canonical payloads) up to length 5 (quick) / 6 "
         "(thorough) from the top level and up to length 4 / 5 behind 12 contexts that open the fast paths (token/quoted/i32 key, "
         "'= {', primitive arrays, mixed containers); generated well-formed documents x key/value encodings with an independently "
         "computed expected tape; random token sequences; random byte strings over an id-heavy alphabet; every prefix and "
-        "single-byte corruptions of documents; parse into a previously used tape. "
+        "single-byte corruptions of documents; parse into a previously used tape; "
+        # >>> a_c03
+        "documents with mixed containers at any depth (array -> key-value list at the k-th element, object ending in bare values) "
+        "with an expected tape by construction; chains of 2..6 parses into one tape alternating the two entry points; every input "
+        "accepted in any of the streams re-run against the real Lexer's token sequence (bt.mir). "
+        # <<< a_c03
         "non-trivial = at least one of the two parsers accepted the input, or the input has >= 3 tokens")
 TRUSTED = ["Vec growth / copyless::VecHelper (push = snoc on a list)",
-           "harness/src/fam_bintape.rs printing of BinaryToken and its structural checker"]
+           "harness/src/fam_bintape.rs printing of BinaryToken and its structural checker",
+           # a_c03
+           "harness/src/fam_bintape.rs mod mirror (raw token stream through jomini::binary::Lexer, untape, the two list comparisons)"]
 ASSUMPTIONS = ["the model parameter fx=false is the code as it is; fx=true (I64 excluded from the three id-class tests) is the repaired parser the unconditional theorem is about"]
 
 PROFILES = ["release", "debug"]
@@ -219,6 +230,7 @@ class Judge:
         self.ctx = ctx
         self.wf_only = wf_only
         self.cand = {}     # key -> list of (len, what, case, impl, expect)
+        self.accepted = []   # a_c03: hex inputs that at least one parser accepted (for the mirror oracle)
 
     def add(self, key, what, case, impl, expect=None):
         l = self.cand.setdefault(key, [])
@@ -245,6 +257,10 @@ class Judge:
                 self.add("crash", "binary tape parser: %s" % o[:80], c, o, "opt=.. | ref=.. | wf=..")
                 continue
             opt, ref, wf = s
+            # >>> a_c03
+            if (opt != "ERR" or ref != "ERR") and k >= base:
+                self.accepted.append(c.split("\t")[-1])
+            # <<< a_c03
             if "n" in wf or "p" in wf:
                 self.add("tape-not-wf", "accepted tape is not structurally sound (wf=%s: n = links/nesting, p = payload outside input)" % wf, c, o, "wf=y")
             if not self.wf_only and opt != ref:
@@ -403,6 +419,16 @@ def gen_streams(ctx, judge, sizes):
     cases = ["bt.reuse\t%s\t%s" % (hexs(rng.choice(pool)), hexs(rng.choice(pool))) for _ in range(max(500, ndocs // 2))]
     impl, model = ctx.correspond("reuse", cases, nontrivial=nontrivial)
     judge.check(cases, impl, model, "reuse")
+    # >>> a_c03
+    if not judge.wf_only:
+        me = _sys.modules[__name__]
+        # 8. documents with mixed containers at any depth and their expected tape (classification, markers)
+        mdocs = C03_mirror.run_mixed_docs(ctx, judge, me, max(1500, ndocs // 2))
+        # 9. chains of parses into one tape, alternating the two entry points
+        C03_mirror.run_chain(ctx, judge, pool + [b for b, _ in mdocs[:300]] + [b"", b"\x03\x00"], max(600, ndocs // 3))
+        # 10. every accepted input of every stream above: the real tape against the real Lexer's token sequence
+        C03_mirror.run_mirror(ctx, judge, judge.accepted, extra=[hexs(C03_mirror.witness_L(enc, EQUAL, OPEN, CLOSE))])
+    # <<< a_c03
 
 
 def run(ctx):
@@ -424,6 +450,6 @@ def search(ctx):
 
 
 CLAIM = {
-    "text": "Coq theorems over a faithful Gallina model of BinaryTapeParser::parse::<ENABLE_OPTIMIZATION> (one definition with the const generic as a boolean; ParseState discriminants and LexemeId constants regenerated from the source each run): the optimised and the reference interpretation produce the same observation (tape or rejection) for ALL byte strings once the I64 id is excluded from the three id-class tests (model parameter fx), the unchanged code is refuted by a vm_compute witness (known finding B), and both interpretations only produce structurally sound tapes; model tied to the code by differential execution on exhaustive token sequences, documents, mutations and random bytes; oracles on the implementation: optimised = reference, reference = independently computed expected tape, structural checker on the real tapes",
+    "text": "Coq theorems over a faithful Gallina model of BinaryTapeParser::parse::<ENABLE_OPTIMIZATION> (one definition with the const generic as a boolean; ParseState discriminants and LexemeId constants regenerated from the source each run): the optimised and the reference interpretation produce the same observation (tape or rejection) for ALL byte strings once the I64 id is excluded from the three id-class tests (model parameter fx), the unchanged code is refuted by a vm_compute witness (known finding B), and both interpretations only produce structurally sound tapes; model tied to the code by differential execution on exhaustive token sequences, documents, mutations and random bytes; oracles on the implementation: optimised = reference, reference = independently computed expected tape, structural checker on the real tapes; (wave 4) every accepted tape is a subsequence of the lexer's token sequence of the same bytes (theorem, unconditional) and equals it up to inserted `{}` pairs unless the only_empties branch meets an odd remainder (theorem + refuting witness, known finding L), checked on every accepted input of every stream with the real Lexer; mixed-container documents with expected tapes; used-tape chains across both entry points",
     "technique": "machine-checked proof in Coq over an executable model + model/implementation correspondence by extraction",
 }
